@@ -100,8 +100,11 @@ def h_cli_vs_api(ctx):
         cli_target = target.split(":")[1]
         os.chdir(d)
     # the configuration may also be handed over explicitly: `--config FILE` / Linter(config_file=FILE)
-    explicit = ctx.pick("explicit_config", ("none", "with-ignore-list"))
+    explicit = ctx.pick("explicit_config", ("none", "with-ignore-list", "with-ignore-list-and-a-root-ignore-file"))
     cfg_args, cfg_kw = [], {}
+    root_ignore = d / ".thailintignore"
+    if explicit == "with-ignore-list-and-a-root-ignore-file":
+        root_ignore.write_text("src/aliasmod.py\nsrc/nest.ts\n")      # the project's own repository-level list, next to the explicit file's
     if explicit != "none":
         cf = d / ("explicit-%d.yaml" % os.getpid())      # per process: pool workers share nothing they write
         cf.write_text((d / ".thailint.yaml").read_text() + "\nignore:\n  - 'src/magic.py'\n  - 'src/sub/'\n  - '*.rs'\n")
@@ -113,6 +116,8 @@ def h_cli_vs_api(ctx):
         os.chdir(cwd0)
     ctx.require("cli-run-completes", r.exit_code in (0, 1), code=r.exit_code, out=r.output[-200:])
     if r.exit_code not in (0, 1):
+        if root_ignore.exists():
+            root_ignore.unlink()
         return
     doc = json.loads(r.output)
     cli_v = Counter((v["rule_id"], v["file_path"] if os.path.isabs(v["file_path"]) else str(d / v["file_path"]), v["line"], v["column"], v["message"])
@@ -127,6 +132,8 @@ def h_cli_vs_api(ctx):
     ctx.cover("findings" if cli_v else "no-findings")
     ctx.require("cli-equals-library", cli_v == api_v, command=cmd, target=target,
                 only_cli=[list(k)[:3] for k in list(cli_v - api_v)[:4]], only_api=[list(k)[:3] for k in list(api_v - cli_v)[:4]])
+    if root_ignore.exists():
+        root_ignore.unlink()
     ctx.require("rules-argument-selects-the-same", api_sel == api_v, command=cmd, target=target)
     ctx.require("exit-code-matches", r.exit_code == (1 if cli_v else 0))
 
